@@ -12,6 +12,8 @@ def harness_args(run, tier, n, cases):
         ["-mode", "e2e", "-seed", run.seed, "-n", e2e_n, "-tier", tier, "-out", os.path.join(BUILD, "c18_e2e.cases")],
         # targeted probe for the known finding C18-ack-into-closing-generation (no case file: oracle only)
         ["-mode", "race", "-seed", run.seed, "-n", 30 if tier == "quick" else 200, "-tier", tier],
+        # configuration -> engine wiring through the public API (RetryLimit 0/1/3/5, T1, T2), both roles
+        ["-mode", "config", "-seed", run.seed, "-n", 1, "-tier", tier, "-out", os.path.join(BUILD, "c18_cfg.cases")],
     ]
 
 
